@@ -646,7 +646,7 @@ class Printer(BasePrinter):
         if dialect not in self._dialect_resources:
             self._dialect_resources[dialect] = set()
         self._dialect_resources[dialect].add(handle)
-        self.print_string(handle)
+        self.print_identifier_or_string_literal(handle)
 
     def print_metadata(self, dialects: Iterable[Dialect]) -> None:
         if not self._dialect_resources:
@@ -691,10 +691,12 @@ class Printer(BasePrinter):
                                         resources.items(), key=lambda x: x[0]
                                     )
                                     for key, resource in sorted_elements[:-1]:
-                                        self.print_string(f'{key}: "{resource}",')
-                                    self.print_string(
-                                        f'{sorted_elements[-1][0]}: "{sorted_elements[-1][1]}"'
+                                        self.print_identifier_or_string_literal(key)
+                                        self.print_string(f': "{resource}",')
+                                    self.print_identifier_or_string_literal(
+                                        sorted_elements[-1][0]
                                     )
+                                    self.print_string(f': "{sorted_elements[-1][1]}"')
                                 self._print_new_line()
                     self._print_new_line()
             self._print_new_line()
